@@ -30,7 +30,12 @@ EXPLANATION = (
     "power of the tensor, a spectator on the same indices - the Einstein convention would take it for contracted: the "
     "target indices of the block expression are then given explicitly (targets of the term + tensor indices), "
     "contributions with explicit and implicit targets add up in one block; all obligations of such scenarios are "
-    "reported under R14c with the key prefix 'implicit targets' (F28)). R14d: exponents (lowered one by one, recursion until none is left, exponents < 1 refused; derivative "
+    "reported under R14c with the key prefix 'implicit targets' (F28); the pool of names that are not available for a new "
+    "index holds the indices of the remainder, of the tensor AND every target index of the term, i.e. also the indices of "
+    "occurrences removed before that no longer occur in the remainder: scenarios with explicit target indices, 2-3 "
+    "occurrences and a trace / a target index on a later occurrence, with spin, exponent, bra-ket symmetry; besides formula "
+    "and round trip the index conservation law |targets(B)| = |targets(term)| + sum of the ranks of the removed blocks is "
+    "decided for every scenario with explicit targets (key prefix 'fresh names', F57)). R14d: exponents (lowered one by one, recursion until none is left, exponents < 1 refused; derivative "
     "e x^(e-1) with the base re-inserted). R14e: several occurrences (sorted block-key tuples, product rule), several "
     "terms (accumulation per key), terms without the tensor under ('none',), spin block keys, input guards, "
     "assumptions preserved, the input expression unchanged, no mutable Expr shared between keys. "
@@ -167,6 +172,10 @@ class Removal:
             used.setdefault(_sas(s), set()).add(s[0])
         for s in I:
             used.setdefault(_sas(s), set()).add(s[0])
+        # the names of the target indices of the term are taken as well, whether or not they still occur in the remainder
+        # (the indices of an occurrence removed before are target indices of the term)
+        for key, names in targets.items():
+            used.setdefault(key, set()).update(names)
         self.deltas = []
         # target indices sitting on the tensor: fresh index + delta
         on_t = {}
@@ -463,6 +472,22 @@ def remove_scenarios():
     a(Sc("block order spin", "R14e", "spin blocks oo_ab and oo_ba in both orders",
          A("d", "i", "j", 0, sp="ab") * A("d", "k", "l", 0, sp="ba") * N("x", "ijkl", "abba")
          + A("d", "k", "l", 0, sp="ba") * A("d", "i", "j", 0, sp="ab") * N("y", "klij", "baab") * num(2), "d", tag="block order"))
+    # F57: explicit target indices, several occurrences, one of them with a repeated / target index: the new index must not
+    # take the name of an index of an occurrence removed before (a target index that no longer occurs in the remainder)
+    FN = "fresh names"
+    a(Sc("fresh trace", "R14c", "A_c d^i_a d^b_b with explicit target c", N("A", "c") * A("d", "i", "a") * A("d", "b", "b"), "d",
+         target="c", tag=FN))
+    a(Sc("fresh nonsym", "R14c", "T_j T_kk with an explicitly empty target list", N("T", "j") * N("T", "kk"), "T", target="", tag=FN))
+    a(Sc("fresh target on tensor", "R14c", "x_c d^i_a d^c_b with explicit target c: a target index on the second occurrence",
+         N("x", "c") * A("d", "i", "a") * A("d", "c", "b"), "d", target="c", tag=FN))
+    a(Sc("fresh three", "R14c", "d^i_a d^j_k d^b_b: three occurrences, explicitly no target", A("d", "i", "a") * A("d", "j", "k")
+         * A("d", "b", "b"), "d", target="", tag=FN))
+    a(Sc("fresh spin", "R14c", "spin-labelled A_c d^i_a d^b_b with explicit target c", N("A", "c", "a") * A("d", "i", "a", 0, sp="aa")
+         * A("d", "b", "b", 0, sp="aa"), "d", target=("c", "a"), tag=FN))
+    a(Sc("fresh square", "R14c", "T_j (T_kk)^2 w_c with explicit target c on a spectator", N("T", "j") * N("T", "kk") ** 2 * N("w", "c"),
+         "T", target="c", tag=FN))
+    a(Sc("fresh bks", "R14c", "f^i_a f^b_b w_c with a bra-ket symmetric f and explicit target c", A("f", "i", "a", 1) * A("f", "b", "b", 1)
+         * N("w", "c"), "f", target="c", tag=FN))
     # unexpanded polynomial factors
     a(Sc("polynomial factor", "R14e", "(f_ij + 2 f_ji) Z_ij: the tensor inside a polynomial factor",
          Poly.unexpanded(A("f", "i", "j") + num(2) * A("f", "j", "i")) * N("Z", "ij"), "f", tag="unexpanded"))
@@ -720,7 +745,7 @@ def _input_unchanged(ctx, fn, label, sc, rec, before):
 
 
 IMPLICIT = "implicit targets: "
-TAG_RULE = {"block order": "R14e", "lifted indices": "R14c", "unexpanded": "R14e"}
+TAG_RULE = {"block order": "R14e", "lifted indices": "R14c", "unexpanded": "R14e", "fresh names": "R14c"}
 
 
 def check_remove(ctx, scenarios=None, guards=True, label=""):
@@ -754,6 +779,23 @@ def check_remove(ctx, scenarios=None, guards=True, label=""):
             _input_unchanged(ctx, fn, "remove_tensor", sc, holder["expr"], sc.expr)
         if isinstance(want, Expected) or kind != "return" or not isinstance(val, dict):
             continue
+        # R14c (index conservation, F57): with explicit target indices every index position of every removed occurrence owns
+        # one target index of the block expression that is none of the term's target indices and none of another position:
+        # |targets(B)| = |targets(term)| + sum of the ranks of the blocks of the key
+        if sc.target is not None:
+            for k, v in sorted(val.items()):
+                if k == ("none",) or tmodel.kind(v) != "expr" or v.attrs["assume"]["target_idx"] is None:
+                    continue
+                gt = [r.attrs["_ix"] for r in v.attrs["assume"]["target_idx"]]
+                rank = sum(len(b.split("_")[0]) for b in k)
+                okc = len(set(gt)) == len(set(sc.target)) + rank and set(sc.target) <= set(gt)
+                ctx.check("R14c", fn, okc, f"remove_tensor [{sc.what}] {k}: {len(set(sc.target))} target indices of the term + {rank} "
+                          f"index positions of the removed blocks = {len(set(gt))} distinct target indices of the block expression",
+                          f"remove_tensor on {sc.what} ({_show(sc.expr, 120)}): the block expression {k} has the target indices "
+                          f"{''.join(x[0] for x in gt)}; the term has {len(set(sc.target))} target indices ({''.join(x[0] for x in sc.target)}) "
+                          f"and the removed blocks have {rank} index positions, each of which needs a target index of its own (a new "
+                          f"index took the name of a target index, e.g. of an occurrence removed before)",
+                          key=f"remove_tensor {tag}{sc.id} {k} index count")
         # the tensor whose symmetry is applied: the removed one on the minimised indices
         built = [e for e in w.effects if e[0] == "tensor" and e[2] == sc.t]
         got_f = []
